@@ -856,6 +856,13 @@ static void run_script(const string &script)
 			g_schema_sized[sid].clear();
 			g_schema[sid] = NULL;
 			api = false;
+		} else if (c == "stacklimit") {
+			// lower the stack limit of this child: stack use proportional to the input then shows at moderate sizes
+			struct rlimit rl;
+			getrlimit(RLIMIT_STACK, &rl);
+			rl.rlim_cur = (rlim_t)N(1);
+			o += ",\"rc\":" + jnum(setrlimit(RLIMIT_STACK, &rl));
+			api = false;
 		} else if (c == "schemasum") {
 			// checksum over the caller's declaration memory (every block of schema <sid>): the library must not write there
 			long sid = N(1);
